@@ -255,3 +255,109 @@ theorem FieldValue.shapeOk_sound (b : Budget) : ∀ v d, FieldValue.shapeOk b d 
     exact .leaf d _ h (by simp) (by simp) (by simp)
 
 end AndaVerif.Schema
+
+namespace AndaVerif.Schema
+
+/-! ### completeness: nothing conforming is refused -/
+
+theorem asWildcard_none_of {α : Type} (kts : List (FieldKey × α))
+    (h : ∀ w t, kts = [(w, t)] → ¬ IsSentinel w) : asWildcard kts = none := by
+  match kts, h with
+  | [], _ => simp [asWildcard]
+  | [(k, t)], h =>
+    have : isWildcardKey k = false := by
+      cases hk : isWildcardKey k with
+      | false => rfl
+      | true => exact absurd ((isWildcardKey_iff k).1 hk) (h k t rfl)
+    simp [asWildcard, this]
+  | _ :: _ :: _, _ => simp [asWildcard]
+
+theorem validateInner_complete (fm : FloatModel) {ft : FieldType} {v : FieldValue}
+    (h : Conforms fm ft v) : validateInner fm ft v = true := by
+  induction h with
+  | bool b => simp [validateInner]
+  | i64 i => simp [validateInner]
+  | i64_readback n h => simp [validateInner, h]
+  | u64 n => simp [validateInner]
+  | f64 d h => simp [validateInner, h]
+  | f32 x h => simp [validateInner, h]
+  | f32_readback d h => simp [validateInner, h]
+  | bytes b => simp [validateInner]
+  | text s => simp [validateInner]
+  | json v => simp [validateInner]
+  | vector bs => simp [validateInner]
+  | vector_readback vs h =>
+    simp only [validateInner, List.all_eq_true]
+    exact fun v hv => (isBf16Bits_iff v).2 (h v hv)
+  | array_any vs => simp [validateInner]
+  | array_homogeneous t vs _ ih =>
+    simp only [validateInner, List.all_eq_true]
+    exact ih
+  | array_tuple ts vs h2 hl _ ih =>
+    match ts, h2, hl, ih with
+    | t₁ :: t₂ :: ts, _, hl, ih =>
+      simp only [validateInner, validators_eq]
+      exact (zipAll_map_iff fm _ vs).2 ⟨hl, ih⟩
+  | map_any kvs => simp [validateInner, keyValidators, validateMap]
+  | map_wildcard w t kvs hs h1 _ ih =>
+    have hw : isWildcardKey w = true := (isWildcardKey_iff w).2 hs
+    simp only [validateInner, keyValidators, validateMap, List.isEmpty_cons, Bool.false_eq_true, if_false,
+      asWildcard, hw, if_true, List.all_eq_true, Bool.and_eq_true]
+    exact fun kv hkv => ⟨h1 kv hkv, ih kv hkv⟩
+  | map_keyed kts kvs hne hnw hkeys _ _ ihs ihn =>
+    have hemp : (kts.map (fun kt => (kt.1, validateInner fm kt.2))).isEmpty = false := by
+      cases kts with
+      | nil => exact absurd rfl hne
+      | cons _ _ => simp
+    simp only [validateInner, validateMap, keyValidators_eq, hemp, Bool.false_eq_true, if_false,
+      asWildcard_map, asWildcard_none_of kts hnw, Option.map_none, Bool.and_eq_true, List.all_eq_true]
+    refine ⟨?_, ?_⟩
+    · intro kv hkv
+      obtain ⟨kt, hkt, he⟩ := hkeys kv hkv
+      simp only [List.any_map, List.any_eq_true]
+      exact ⟨kt, hkt, by simp [he]⟩
+    · intro c hc
+      obtain ⟨kt, hkt, rfl⟩ := List.mem_map.1 hc
+      simp only
+      cases hl : kvs.lookup kt.1 with
+      | none => exact ihn kt hkt hl
+      | some x => exact ihs kt hkt x hl
+  | option_null t => simp [validateInner]
+  | option_some t v hv _ ih =>
+    cases v <;> simp [validateInner] at hv ⊢ <;> exact ih
+
+theorem Json.shapeOk_complete (b : Budget) {d : Nat} {j : Json} (h : JsonInBudget b d j) :
+    Json.shapeOk b d j = true := by
+  induction h with
+  | arr d xs h1 h2 _ ih =>
+    simp only [Json.shapeOk, Bool.and_eq_true, decide_eq_true_eq, Json.shapeOkL_iff]
+    exact ⟨⟨h1, h2⟩, ih⟩
+  | obj d kvs h1 h2 _ ih =>
+    simp only [Json.shapeOk, Bool.and_eq_true, decide_eq_true_eq, Json.shapeOkO_iff]
+    exact ⟨⟨h1, h2⟩, ih⟩
+  | leaf d j h1 ha ho =>
+    cases j with
+    | arr xs => exact absurd rfl (ha xs)
+    | obj kvs => exact absurd rfl (ho kvs)
+    | _ => simp [Json.shapeOk, h1]
+
+theorem FieldValue.shapeOk_complete (b : Budget) {d : Nat} {v : FieldValue} (h : InBudget b d v) :
+    FieldValue.shapeOk b d v = true := by
+  induction h with
+  | array d vs h1 h2 _ ih =>
+    simp only [FieldValue.shapeOk, Bool.and_eq_true, decide_eq_true_eq, FieldValue.shapeOkL_iff]
+    exact ⟨⟨h1, h2⟩, ih⟩
+  | map d kvs h1 h2 _ ih =>
+    simp only [FieldValue.shapeOk, Bool.and_eq_true, decide_eq_true_eq, FieldValue.shapeOkM_iff]
+    exact ⟨⟨h1, h2⟩, ih⟩
+  | json d j h1 h2 =>
+    simp only [FieldValue.shapeOk, Bool.and_eq_true, decide_eq_true_eq]
+    exact ⟨h1, Json.shapeOk_complete b h2⟩
+  | leaf d v h1 ha hm hj =>
+    cases v with
+    | array vs => exact absurd rfl (ha vs)
+    | map kvs => exact absurd rfl (hm kvs)
+    | json j => exact absurd rfl (hj j)
+    | _ => simp [FieldValue.shapeOk, h1]
+
+end AndaVerif.Schema
